@@ -159,7 +159,7 @@ func runFS(in *bufio.Scanner, w *bufio.Writer) {
 		case "z":
 			// "crash": whatever is open is abandoned.  Observe the directory, decode every finished
 			// file with the standard reader, run the real start-up clean-up, observe again.
-			fmt.Fprintf(w, "< dir %s\n", strings.Join(listing(dir), " "))
+			fmt.Fprintln(w, strings.TrimSpace("< dir "+strings.Join(listing(dir), " ")))
 			ents, _ := os.ReadDir(dir)
 			var names []string
 			for _, e := range ents {
@@ -174,7 +174,7 @@ func runFS(in *bufio.Scanner, w *bufio.Writer) {
 			}
 			err := deleteTempFiles(dir)
 			fmt.Fprintf(w, "< cleanup %s\n", vOk(err))
-			fmt.Fprintf(w, "< dir-after-cleanup %s\n", strings.Join(listing(dir), " "))
+			fmt.Fprintln(w, strings.TrimSpace("< dir-after-cleanup "+strings.Join(listing(dir), " ")))
 		}
 	}
 }
